@@ -50,9 +50,9 @@ type pkgInfo struct {
 }
 
 var (
-	repo    string
-	outDir  string
-	digest  = map[string]string{}
+	repo     string
+	outDir   string
+	digest   = map[string]string{}
 	problems []string
 )
 
@@ -91,7 +91,8 @@ func loadPkg(rel string) *pkgInfo {
 			fm[filepath.Base(n)] = p.Files[n]
 		}
 	}
-	info := &types.Info{Defs: map[*ast.Ident]types.Object{}, Types: map[ast.Expr]types.TypeAndValue{}}
+	info := &types.Info{Defs: map[*ast.Ident]types.Object{}, Types: map[ast.Expr]types.TypeAndValue{},
+		Uses: map[*ast.Ident]types.Object{}, Selections: map[*ast.SelectorExpr]*types.Selection{}}
 	conf := types.Config{Importer: &fakeImporter{pkgs: map[string]*types.Package{}}, Error: func(error) {}, FakeImportC: true}
 	pkg, _ := conf.Check(rel, fset, files, info)
 	return &pkgInfo{dir: rel, fset: fset, files: fm, pkg: pkg, info: info}
